@@ -18,7 +18,7 @@ RULE = ("seeded invocations from every rejection class (no source; a missing sou
 ASSUMPTIONS = ["a --glob pattern that matches nothing is not claimed as a rejection class (the code documents it as a FIXME and the statement speaks of a missing source)"]
 
 CLASSES = ["no-source", "missing-source", "dir-without-r", "multi-to-absent", "multi-to-file", "dir-onto-file-dest", "dir-onto-file-mapped",
-           "same-as-dest", "noclobber-force", "bad-driver", "bad-reflink", "bad-backup", "bad-glob", "bad-blocksize", "glob-multi-to-nondir", "target-directory-nondir", "bad-workers", "dangling-source"]
+           "same-as-dest", "noclobber-force", "bad-driver", "bad-reflink", "bad-backup", "bad-glob", "bad-blocksize", "glob-multi-to-nondir", "target-directory-nondir", "bad-workers", "dangling-source", "dirlink-without-r"]
 
 
 def gen_cases(tier, seed):
@@ -126,6 +126,12 @@ def gen_cases(tier, seed):
             spec.append({"p": "dang", "k": "l", "target": "nowhere-to-be-found"})
             srcs.insert(pos, "dang")
             opts.append("-L")
+        elif cls == "dirlink-without-r":
+            spec += [{"p": "adir", "k": "d"}, {"p": "adir/x", "k": "f", "size": 4, "seed": 2, "segs": None}, {"p": "ldir", "k": "l", "target": "adir"}]
+            srcs = [s for s in srcs if not any(e["p"] == s and e["k"] == "d" for e in spec)]
+            pos = min(pos, len(srcs))
+            srcs.insert(pos, "ldir")
+            opts = []
         elif cls == "bad-blocksize":
             opts += ["--block-size", r.choice(["12XB", "-5", "abc"])]
         pre = []
